@@ -95,6 +95,7 @@ StepClauses(ph, s0, s1, b) ==
   \o On("C03", C03_A(Cfg, Opts, ph, s0, s1, b)) \o On("C04", C04_A(Cfg, Opts, ph, s0, s1, b))
   \o On("C06", C06_A(Cfg, Opts, ph, s0, s1, b)) \o On("C10", C10_A(Cfg, Opts, ph, s0, s1, b))
   \o On("C13", C13_A(Cfg, Opts, ph, s0, s1, b)) \o On("C14", C14_A(Cfg, Opts, ph, s0, s1, b))
+  \o On("C11", C11_A(Cfg, Opts, ph, s0, s1, b))
 
 \* each component changes place at most once within the allocation phase of a step
 MovesOnce ==
@@ -114,9 +115,13 @@ LogFieldsToCompare ==
     "fs", "fcost", "ft", "cs", "cp", "pc">>
 RunClauses ==
   LET fin == Run.final
-  IN IF ~IsFreshSimulate THEN <<>>
+  IN IF Run.op = "sort"
+     THEN On("C11", C11_F(Cfg, Run)) \o << <<"L2.sort", C11_FConforms(Cfg, Run)>> >>
+     ELSE IF ~IsFreshSimulate THEN <<>>
      ELSE
         On("C05", C05_End(Cfg, Opts, fin.st, Run.ret))
+     \o On("C13", << <<"C13.R.no-crash", Run.ret # "exc:ValueError">> >>)
+     \o On("C11", << <<"C11.R.rule-accepted", Run.ret \notin {"exc:KeyError", "exc:TypeError"}>> >>)
      \o On("C01", C01_L(Cfg, Opts, fin.lg)) \o On("C02", C02_L(Cfg, Opts, fin.lg))
      \o On("C03", C03_L(Cfg, Opts, fin.lg)) \o On("C04", C04_L(Cfg, Opts, fin.lg))
      \o On("C07", C07_L(Cfg, Opts, fin.lg)) \o On("C08", C08_L(Cfg, Opts, fin.lg))
